@@ -3,6 +3,7 @@
 #pragma once
 #include <cmath>
 #include <cstdint>
+#include <cstdlib>
 #include <cstring>
 #include <functional>
 #include <istream>
@@ -12,6 +13,7 @@
 #include <vector>
 #include <vp/format.hpp>
 #include <vp/report.hpp>
+#include <vp/xplore.hpp>
 
 #include <covfie/core/algebra/affine.hpp>
 #include <covfie/core/field.hpp>
@@ -229,6 +231,28 @@ inline bool cfg_bits_equal(const C & a, const C & b)
     return cfg_bits_equal(a.min, b.min) && cfg_bits_equal(a.max, b.max);
 }
 
+// the values a storage-order layer returns at every lattice coordinate of its extents, looked up through its view (at()):
+// "stored values at every coordinate" as a user reads them, not the flat cells
+template <class St>
+inline std::vector<typename St::covariant_output_t::scalar_t> lattice_values(const typename St::owning_data_t & so)
+{
+    constexpr std::size_t N = St::contravariant_input_t::dimensions;
+    constexpr std::size_t M = St::covariant_output_t::dimensions;
+    using I = typename St::contravariant_input_t::scalar_t;
+    std::vector<typename St::covariant_output_t::scalar_t> out;
+    const auto sizes = so.get_configuration();
+    std::array<size_t, N> ext;
+    for (std::size_t k = 0; k < N; ++k) ext[k] = sizes[k];
+    typename St::non_owning_data_t sv(so);
+    for_each_coord<N>(ext, [&](const std::array<size_t, N> & c) {
+        typename St::contravariant_input_t::vector_t cc;
+        for (std::size_t k = 0; k < N; ++k) cc[k] = static_cast<I>(c[k]);
+        auto && cell = sv.at(cc);
+        for (std::size_t j = 0; j < M; ++j) out.push_back(cell[j]);
+    });
+    return out;
+}
+
 // S is a generated struct: B, T (array scalar or void), name, key, depth, fl(), make(var), cells(f), configs_equal(a, b)
 template <class S>
 inline void fill_pattern(std::vector<typename S::T *> & cs, long pat)
@@ -306,12 +330,14 @@ inline IoEntry make_entry()
             covfie::field<B> f = S::make(var);
             long npat = 1;
             std::vector<long> pats = {-1, -2, -7};
+            const bool light = std::getenv("VP_IO_LIGHT") != nullptr;  // one pattern per variant (runs under valgrind)
+            if (light) pats = {-1};
             if constexpr (!std::is_void_v<typename S::T>) {
                 auto cs0 = S::cells(f);
                 const long A = static_cast<long>(Bits<typename S::T>::alphabet().size());
                 long positions = static_cast<long>(cs0.size());
                 if (!thorough && positions > 6) positions = 6;  // quick: the first six scalar positions
-                if (var == 0)
+                if (var == 0 && !light)
                     for (long p = 0; p < positions * A; ++p) pats.push_back(p);
                 npat = static_cast<long>(pats.size());
             } else {
@@ -354,6 +380,14 @@ inline IoEntry make_entry()
                                     R.viol(key, buf, cas);
                                     break;
                                 }
+                    }
+                    if constexpr (S::has_lattice) {
+                        // and as a user reads them: through the storage order's view at every lattice coordinate
+                        auto la = S::lattice(f), lb = S::lattice(g);
+                        ++R.transitions;
+                        bool same = la.size() == lb.size();
+                        for (size_t k = 0; same && k < la.size(); ++k) same = get_bits(&la[k]) == get_bits(&lb[k]);
+                        if (!same) R.viol(key, "looked up through the storage order's view, the reloaded field differs from the original at a lattice coordinate (or has a different number of them)", cas);
                     }
                     std::ostringstream o2;
                     g.dump(o2);
